@@ -234,7 +234,7 @@ def check(prop, tier, seed):
             log("UNDECIDED: " + u)
         print("RESULT %s: undecided (%d reason(s)); no verdict" % (prop, len(undecided)))
         return EXIT_UNDECIDED
-    print("RESULT %s: held on everything explored (%s tier, %.0fs)" % (prop, tier, wall))
+    print("RESULT %s: held on everything explored%s (%s tier, %.0fs)" % (prop, (" apart from %d known finding(s)" % len(known_hits)) if known_hits else "", tier, wall))
     return EXIT_OK
 
 
